@@ -84,6 +84,7 @@ def gen_case(rng, tier):
             ]))
         case["final"] = f
     case["restriction"] = restr
+    case["twin_first"] = rng.random() < 0.3
     if rng.random() < 0.08:
         # a join identity that travelled through one or two transfers, joined to a relation that
         # lives in any of the engines (the join-identity short-cut meets backtracking)
@@ -97,6 +98,18 @@ def gen_case(rng, tier):
         case.update(prog=prog, cols=[], engine=prog[2], restriction=None,
                     final={"kind": "join", "fixed": ["leaf", "LF"], "pred": None, "fixed_engine": fe, "is_lhs": rng.random() < 0.3})
     return case
+
+
+def strip_restrictions(node):
+    """The same AST with engine-restricted functions replaced by their portable look-alikes."""
+    if not isinstance(node, list):
+        return node
+    if node and node[0] == "rfn" and node[1] in ("neg", "add", "sub", "mul"):
+        args = [strip_restrictions(a) for a in node[2]]
+        return ["neg", args[0]] if node[1] == "neg" else [node[1], args[0], args[1]]
+    if node and node[0] == "rcmp":
+        return ["cmp", node[1], strip_restrictions(node[2]), strip_restrictions(node[3])]
+    return [strip_restrictions(x) for x in node]
 
 
 def run_case(case):
@@ -143,6 +156,17 @@ def run_case(case):
                     c["noop_calls_checked"] = c.get("noop_calls_checked", 0) + 1
                     if res is not rel:
                         out["violations"].append({"kind": "noop_call_returned_new_object", "detail": f"{name} on {model.show(sub)} with {opt}: {short(res)} is not {short(rel)}"})
+        if restricted and case.get("twin_first") and f["kind"] != "join":
+            # the same request with the restriction left out (an expression that compares equal:
+            # equality ignores supporting_engine_types) is issued first, in every engine the
+            # restricted one may be tried in; support is a property of the object, not of its looks
+            twin = dict(case, final=dict(f, node=strip_restrictions(f["node"])))
+            for opt in (None, {"pe": "sql", "bt": True, "tr": True, "rq": False}, {"pe": "it", "bt": True, "tr": True, "rq": False}, {"pe": "it2", "bt": True, "tr": True, "rq": False}):
+                try:
+                    c03.apply_final(twin, base, b, engines, opt)
+                    c["portable_twin_requests"] = c.get("portable_twin_requests", 0) + 1
+                except R.RelationalAlgebraError:
+                    pass
         label = model.show(c03.final_prog(case, None))
         if f["kind"] == "join":
             combos = [None] + [{"pe": f["fixed_engine"], "bt": bt, "tr": tr, "rq": False} for bt in (True, False) for tr in (False, True)]
